@@ -1,0 +1,38 @@
+//go:build verif
+
+/*
+Verification hook (build tag "verif" only; not part of the shipped binary).
+
+The advanced deployment controller builds its typed clientset from a process
+global REST config and its listers from the manager's informers, which leaves
+no seam for a simulated API server. This file only adds a constructor that
+injects those dependencies and a wrapper around the unexported add().
+*/
+
+package deployment
+
+import (
+	clientset "k8s.io/client-go/kubernetes"
+	appslisters "k8s.io/client-go/listers/apps/v1"
+	"k8s.io/client-go/tools/record"
+	"sigs.k8s.io/controller-runtime/pkg/client"
+	"sigs.k8s.io/controller-runtime/pkg/manager"
+	"sigs.k8s.io/controller-runtime/pkg/reconcile"
+)
+
+// VerifNewReconciler builds a ReconcileDeployment from injected dependencies.
+func VerifNewReconciler(cli client.Client, kube clientset.Interface, dLister appslisters.DeploymentLister,
+	rsLister appslisters.ReplicaSetLister, recorder record.EventRecorder) reconcile.Reconciler {
+	factory := &controllerFactory{
+		client:        kube,
+		eventRecorder: recorder,
+		dLister:       dLister,
+		rsLister:      rsLister,
+	}
+	return &ReconcileDeployment{Client: cli, controllerFactory: factory}
+}
+
+// VerifAdd registers the controller and its real watches/predicates on mgr.
+func VerifAdd(mgr manager.Manager, r reconcile.Reconciler) error {
+	return add(mgr, r)
+}
